@@ -1,8 +1,209 @@
-/* C08 spec (work in progress) */
+/* C08 spec predicates: reductions at the level of their index functions.
+ *   remove_dims      -> NumPy result shape of a reduction (keepdims: same rank, reduced axes 1; else those axes removed, order kept)
+ *   reduction_slices -> per source axis the range of source positions that feed the result element at `idx`:
+ *                       reduced axis: [0, extent); other axis: the single position idx[r(a)] where r(a) is the result axis
+ *                       source axis a maps to (a itself with keepdims, else the number of kept axes below a)
+ * kind B: shapes / indices = utl::static_vector<size_t,8> (sv_t); axis = int, nmtools_array<int,2> (ax2_t), utl::static_vector<int,8> (svi_t).
+ * Postconditions are NumPy's rules; they are not derived from the code. */
 #include "spec/abi.h"
 #ifndef C08_SPEC_H
 #define C08_SPEC_H
-GHOST(unsigned long, g)
-static inline int pre_verif_remove_dims_int_true(sv_t shape, int axis) { return SV_LEN(shape) <= CAP; }
-static inline int post_verif_remove_dims_int_true(sv_t shape, int axis, sv_t ret) { return 1; }
+
+GHOST(unsigned long, g)                 /* universally quantified source axis / result position */
+GHOST_ARR(int, RED, 10)                 /* RED[t] = 1 iff source axis t is reduced                                  */
+GHOST_ARR(unsigned long, KEPT, 10)      /* KEPT[t] = #{ s < t : axis s is not reduced } (result position of axis t) */
+
+/* Python-style axis normalisation a mod n for -n <= a < n */
+#define C08_NORM(a, n)    ((a) < 0 ? (unsigned long)((long)(n) + (long)(a)) : (unsigned long)(a))
+#define C08_AXIS_OK(a, n) (-(long)(n) <= (long)(a) && (long)(a) < (long)(n))
+
+/* the set of reduced source axes as flags */
+typedef struct { int red[8]; } c08_red_t;
+static inline c08_red_t c08_red_int(int axis, unsigned long dim)
+{
+  c08_red_t r;
+  for (unsigned long t = 0; t < CAP; t++) r.red[t] = (t < dim && t == C08_NORM(axis, dim)) ? 1 : 0;
+  return r;
+}
+static inline c08_red_t c08_red_ax2(ax2_t axes, unsigned long dim)
+{
+  c08_red_t r;
+  for (unsigned long t = 0; t < CAP; t++)
+    r.red[t] = (t < dim && (t == C08_NORM(ARR_AT(axes, 0), dim) || t == C08_NORM(ARR_AT(axes, 1), dim))) ? 1 : 0;
+  return r;
+}
+static inline c08_red_t c08_red_axes(svi_t axes, unsigned long dim)
+{
+  c08_red_t r;
+  for (unsigned long t = 0; t < CAP; t++) {
+    int hit = 0;
+    for (unsigned long k = 0; k < CAP; k++)
+      if (k < SV_LEN(axes) && t == C08_NORM(SV_AT(axes, k), dim)) hit = 1;
+    r.red[t] = (t < dim && hit) ? 1 : 0;
+  }
+  return r;
+}
+static inline c08_red_t c08_red_all(void)
+{ c08_red_t r; for (unsigned long t = 0; t < CAP; t++) r.red[t] = 1; return r; }
+/* number of axes below a that survive the reduction = position of source axis a in the result without keepdims */
+static inline unsigned long c08_kept_below(c08_red_t r, unsigned long a)
+{
+  unsigned long c = 0;
+  for (unsigned long t = 0; t < CAP; t++) if (t < a && !r.red[t]) c++;
+  return c;
+}
+static inline unsigned long c08_n_reduced(c08_red_t r, unsigned long dim)
+{
+  unsigned long c = 0;
+  for (unsigned long t = 0; t < CAP; t++) if (t < dim && r.red[t]) c++;
+  return c;
+}
+/* functional definition of the ghost traces (always satisfiable) */
+static inline int c08_trace(c08_red_t r)
+{
+  int ok = GHOST_DEF(KEPT[0], 0UL);
+  for (unsigned long t = 0; t < CAP; t++) {
+    ok = ok && GHOST_DEF(RED[t], r.red[t] ? 1 : 0);
+    ok = ok && GHOST_DEF(KEPT[t + 1], KEPT[t] + (RED[t] ? 0UL : 1UL));
+  }
+  return ok;
+}
+static inline int c08_axes_ok(svi_t axes, unsigned long dim)
+{
+  int ok = 1;
+  for (unsigned long k = 0; k < CAP; k++) if (k < SV_LEN(axes)) ok = ok && C08_AXIS_OK(SV_AT(axes, k), dim);
+  return ok;
+}
+
+/* NumPy: shape of reduce(a, axes, keepdims) for a of shape `shape`, reduced axes r.
+ *   keepdims : rank unchanged, extent 1 on reduced axes
+ *   otherwise: rank = number of surviving axes; surviving source axis g lands at position kept_below(g) */
+#define C08_POST_KEEP(shape, r, ret) \
+  (SV_LEN(ret) == SV_LEN(shape) && IMPLIES(g < SV_LEN(shape), SV_AT(ret, g) == ((r).red[g] ? 1UL : SV_AT(shape, g))))
+#define C08_POST_DROP(shape, r, ret) \
+  (SV_LEN(ret) == c08_kept_below(r, SV_LEN(shape)) && SV_LEN(ret) + c08_n_reduced(r, SV_LEN(shape)) == SV_LEN(shape) \
+   && IMPLIES(g < SV_LEN(shape) && !(r).red[g], SV_AT(ret, c08_kept_below(r, g)) == SV_AT(shape, g)))
+
+/* ------------------------------------------------------------------ remove_dims, one axis
+ * precondition: a valid axis (-dim <= axis < dim; the views hand the user's axis on unchecked and NumPy raises AxisError otherwise) */
+static inline int pre_verif_remove_dims_int_true(sv_t shape, int axis)
+{ return SV_LEN(shape) <= CAP && C08_AXIS_OK(axis, SV_LEN(shape)); }
+static inline int post_verif_remove_dims_int_true(sv_t shape, int axis, sv_t ret)
+{ c08_red_t r = c08_red_int(axis, SV_LEN(shape)); return C08_POST_KEEP(shape, r, ret); }
+
+static inline int pre_verif_remove_dims_int_false(sv_t shape, int axis)
+{ return SV_LEN(shape) <= CAP && C08_AXIS_OK(axis, SV_LEN(shape)); }
+static inline int post_verif_remove_dims_int_false(sv_t shape, int axis, sv7_t ret)
+{ c08_red_t r = c08_red_int(axis, SV_LEN(shape)); return C08_POST_DROP(shape, r, ret); }
+
+/* run-time keepdims handed directly to the index function (the views never do: view::reduce dispatches a run-time keepdims to the
+ * two compile-time instantiations above). The result type is then the capacity-7 vector also for keepdims=true, so a rank-8 source
+ * with keepdims=true does not fit; that combination is excluded here and reported as an observation, not as a finding. */
+static inline int pre_verif_remove_dims_int_bool(sv_t shape, int axis, int keepdims)
+{ return SV_LEN(shape) <= CAP && C08_AXIS_OK(axis, SV_LEN(shape)) && !(keepdims && SV_LEN(shape) == CAP); }
+static inline int post_verif_remove_dims_int_bool(sv_t shape, int axis, int keepdims, sv7_t ret)
+{
+  c08_red_t r = c08_red_int(axis, SV_LEN(shape));
+  return keepdims ? C08_POST_KEEP(shape, r, ret) : C08_POST_DROP(shape, r, ret);
+}
+
+/* ------------------------------------------------------------------ remove_dims, two axes (fixed-length list)
+ * precondition: both valid and distinct after normalisation (NumPy: "duplicate value in 'axis'"; view::reduce: "TODO: error handling
+ * for duplicate axis" -- the property quantifies over subsets of axes) */
+static inline int pre_verif_remove_dims_ax2_true(sv_t shape, ax2_t axis)
+{
+  unsigned long d = SV_LEN(shape);
+  return d <= CAP && C08_AXIS_OK(ARR_AT(axis, 0), d) && C08_AXIS_OK(ARR_AT(axis, 1), d)
+      && C08_NORM(ARR_AT(axis, 0), d) != C08_NORM(ARR_AT(axis, 1), d) && c08_trace(c08_red_ax2(axis, d));
+}
+static inline int post_verif_remove_dims_ax2_true(sv_t shape, ax2_t axis, sv_t ret)
+{ c08_red_t r = c08_red_ax2(axis, SV_LEN(shape)); return C08_POST_KEEP(shape, r, ret); }
+static inline int pre_verif_remove_dims_ax2_false(sv_t shape, ax2_t axis)
+{ return pre_verif_remove_dims_ax2_true(shape, axis); }
+static inline int post_verif_remove_dims_ax2_false(sv_t shape, ax2_t axis, sv6_t ret)
+{ c08_red_t r = c08_red_ax2(axis, SV_LEN(shape)); return C08_POST_DROP(shape, r, ret) && SV_LEN(ret) + 2UL == SV_LEN(shape); }
+
+/* ------------------------------------------------------------------ remove_dims, axis=None, keepdims: all ones, rank kept */
+static inline int pre_verif_remove_dims_none_true(arr3_t shape) { return 1; }
+static inline int post_verif_remove_dims_none_true(arr3_t shape, arr3_t ret)
+{ return ARR_AT(ret, 0) == 1UL && ARR_AT(ret, 1) == 1UL && ARR_AT(ret, 2) == 1UL; }
+
+/* ------------------------------------------------------------------ reduction_slices
+ * idx is an index into the result (one entry per result axis: len(idx) = rank of the reduced array);
+ * slice of source axis g:   reduced -> [0, shape[g])      kept -> [idx[r(g)], idx[r(g)]+1),  r(g) = keepdims ? g : kept_below(g) */
+#define SL_LO(ret, a) ARR_AT(SV_AT(ret, a), 0)
+#define SL_HI(ret, a) ARR_AT(SV_AT(ret, a), 1)
+#define C08_POST_SLICES(idx, shape, r, keepdims, ret) \
+  (SV_LEN(ret) == SV_LEN(shape) \
+   && IMPLIES(g < SV_LEN(shape) && (r).red[g], SL_LO(ret, g) == 0UL && SL_HI(ret, g) == SV_AT(shape, g)) \
+   && IMPLIES(g < SV_LEN(shape) && !(r).red[g], \
+              SL_LO(ret, g) == SV_AT(idx, (keepdims) ? g : c08_kept_below(r, g)) \
+              && SL_HI(ret, g) == SV_AT(idx, (keepdims) ? g : c08_kept_below(r, g)) + 1UL))
+
+static inline int pre_verif_reduction_slices_int(sv_t idx, sv_t shape, int axis, int keepdims)
+{
+  unsigned long d = SV_LEN(shape);
+  return d <= CAP && C08_AXIS_OK(axis, d) && SV_LEN(idx) == (keepdims ? d : d - 1UL);
+}
+static inline int post_verif_reduction_slices_int(sv_t idx, sv_t shape, int axis, int keepdims, slices_t ret)
+{ c08_red_t r = c08_red_int(axis, SV_LEN(shape)); return C08_POST_SLICES(idx, shape, r, keepdims, ret); }
+
+static inline int pre_verif_reduction_slices_int_true(sv_t idx, sv_t shape, int axis) { return pre_verif_reduction_slices_int(idx, shape, axis, 1); }
+static inline int post_verif_reduction_slices_int_true(sv_t idx, sv_t shape, int axis, slices_t ret)
+{ return post_verif_reduction_slices_int(idx, shape, axis, 1, ret); }
+static inline int pre_verif_reduction_slices_int_false(sv_t idx, sv_t shape, int axis) { return pre_verif_reduction_slices_int(idx, shape, axis, 0); }
+static inline int post_verif_reduction_slices_int_false(sv_t idx, sv_t shape, int axis, slices_t ret)
+{ return post_verif_reduction_slices_int(idx, shape, axis, 0, ret); }
+
+static inline int pre_verif_reduction_slices_axes(sv_t idx, sv_t shape, svi_t axes, int keepdims)
+{
+  unsigned long d = SV_LEN(shape);
+  if (!(d <= CAP && SV_LEN(axes) <= CAP && c08_axes_ok(axes, d))) return 0;
+  c08_red_t r = c08_red_axes(axes, d);
+  return c08_trace(r) && SV_LEN(idx) == (keepdims ? d : c08_kept_below(r, d));
+}
+static inline int post_verif_reduction_slices_axes(sv_t idx, sv_t shape, svi_t axes, int keepdims, slices_t ret)
+{ c08_red_t r = c08_red_axes(axes, SV_LEN(shape)); return C08_POST_SLICES(idx, shape, r, keepdims, ret); }
+
+/* ------------------------------------------------------------------ the fold loops of view::reducer_t over an abstract op
+ * verif_abs_op is the abstract binary operation of inst/c08.cpp: an uninterpreted (pure, otherwise unconstrained) function for the
+ * verifier; for native replay / translation validation a concrete non-commutative, non-associative stand-in. */
+#if defined(VERIF_NATIVE)
+extern "C" long verif_abs_op(long a, long b) { return (long)((unsigned long)a * 31UL + ((unsigned long)b ^ 0x9e3779b97f4a7c15UL)); }
+#elif defined(VERIF_NATIVE_C)
+extern long verif_abs_op(long a, long b);
+#else
+long __CPROVER_uninterpreted_c08_op(long, long);
+long verif_abs_op(long a, long b) { return __CPROVER_uninterpreted_c08_op(a, b); }
+#endif
+/* ghost trace of the left fold in increasing index order: FT[j] = value after folding x[0..j) */
+GHOST_ARR(long, FT, 10)
+/* without initial value: starts from x[0] (NumPy: a reduction without identity over an empty operand is an error -> len >= 1) */
+static inline long spec_fold(lv_t x)
+{
+  long acc = SV_AT(x, 0);
+  for (unsigned long j = 1; j < CAP; j++) if (j < SV_LEN(x)) acc = verif_abs_op(acc, SV_AT(x, j));
+  return acc;
+}
+static inline long spec_fold_init(lv_t x, long init)
+{
+  long acc = init;
+  for (unsigned long j = 0; j < CAP; j++) if (j < SV_LEN(x)) acc = verif_abs_op(acc, SV_AT(x, j));
+  return acc;
+}
+static inline int pre_verif_fold(lv_t x)
+{
+  int ok = SV_LEN(x) >= 1UL && SV_LEN(x) <= CAP && GHOST_DEF(FT[1], SV_AT(x, 0));
+  for (unsigned long j = 1; j < CAP; j++) ok = ok && GHOST_DEF(FT[j + 1], verif_abs_op(FT[j], SV_AT(x, j)));
+  return ok;
+}
+static inline int post_verif_fold(lv_t x, long ret) { return ret == FT[SV_LEN(x)] && ret == spec_fold(x); }
+static inline int pre_verif_fold_init(lv_t x, long init)
+{
+  int ok = SV_LEN(x) <= CAP && GHOST_DEF(FT[0], init);
+  for (unsigned long j = 0; j < CAP; j++) ok = ok && GHOST_DEF(FT[j + 1], verif_abs_op(FT[j], SV_AT(x, j)));
+  return ok;
+}
+static inline int post_verif_fold_init(lv_t x, long init, long ret) { return ret == FT[SV_LEN(x)] && ret == spec_fold_init(x, init); }
+
 #endif
